@@ -266,35 +266,38 @@ class TsGraphEdgePropertyMixin:
                 f"Max lag must always be greater than 0, so passed in {lag} value is invalid."
             )
         max_lag = copy(self.max_lag)  # type: ignore
-        self.graph["max_lag"] = lag
 
-        # we need to add edges
+        # we need to add nodes and edges
         if lag > max_lag:
-            # get all non-lag nodes
-            non_lag_nodes = self.nodes_at(t=0)  # type: ignore
+            self.graph["max_lag"] = lag
+
+            # every variable gets its nodes at the new lags (``add_node`` expands a
+            # variable over the whole window), whether or not it has lagged neighbors
+            for variable in self.variables:  # type: ignore
+                self.add_node((variable, 0))
 
             # if we are dealing with a stationary graph, then we need
             # to add relevant edges to maintain stationary structure
             if self.stationary:
-                # now get all neighbors that are in the past
+                # all edges into a non-lag node, contemporaneous ones included; re-adding
+                # them adds all homologous edges that fit into the new window
                 edge_list = []
-                for node in non_lag_nodes:
-                    edge_list.extend([(nbr, node) for nbr in self.lagged_neighbors(node)])
-
-                # now add all homologous edges
+                for u, v, data in list(self.edges(data=True)):  # type: ignore
+                    if not self.is_directed() and u[1] > v[1]:
+                        # undirected edges are stored unordered: earlier node first
+                        u, v = v, u
+                    if v[1] == 0:
+                        edge_list.append((u, v, data))
                 self.add_edges_from(edge_list)
-            else:
-                # just add relevant nodes
-                for variable, _ in non_lag_nodes:
-                    # all relevant nodes are now added based on new max-lag
-                    self.add_node((variable, -lag))
 
-        # here, we need to remove edges that are at higher lags
+        # here, we need to remove nodes (and their edges) that are at higher lags
         elif max_lag > lag:
             for _lag in range(max_lag, lag, -1):
-                # get all non-lag nodes
-                nodes = self.nodes_at(t=-_lag)  # type: ignore
+                nodes = self.nodes_at(t=_lag)  # type: ignore
                 self.remove_nodes_from(nodes)  # type: ignore
+
+            # only now shrink the window: the nodes to remove lie outside the new one
+            self.graph["max_lag"] = lag
         return self
 
 
